@@ -82,6 +82,7 @@ class Engine:
         # placeholder alphabet for symbolic characters crossing an f-string: 'pua16' (plane 16, utf-8 only) or
         # 'c1' (U+0080..U+009F minus NEL: Latin-1 encodable, for non-UTF-8 charsets)
         self.char_alphabet = "pua16"
+        self.sensitive_chars: Tuple[int, ...] = ()
         self._fresh = 0
         # per-path token registry for f-string rendering
         self.rendered: List[Tuple[z3.ExprRef, str]] = []
@@ -359,6 +360,11 @@ class Engine:
         for ch, t in self.chars.items():
             if z3.eq(t, term):
                 return ch
+        # code points the code AFTER the f-string is known to look for (e.g. CR/LF/NUL checks on the rendered text)
+        # are materialised exactly: fork on each, return the real character
+        for cp in self.sensitive_chars:
+            if self.branch(term == cp):
+                return chr(cp)
         if self.char_alphabet == "c1":
             # encoding classes differ: an ASCII char encodes identically in ascii/latin-1/utf-8, a char >= 0x80 does
             # not.  Fork on the class and use a placeholder of the same class.
